@@ -2273,7 +2273,7 @@ def value_table(fn, e, depth=0):
     return [([], e0)]
 
 
-def field_table(fn, e, field, depth=0):
+def field_table(fn, e, field, depth=0, kinds=False):
     """decision table of one field of a struct value that is built with the crate's constructors and then adjusted by builder
     calls (`r = R::field(..); if c { r = r.with_doc(d) }`): [(conditions, field value)].  A builder call on the value itself that
     does not touch the field contributes nothing; one that does contributes its value under its own conditions.  None when a
@@ -2295,25 +2295,70 @@ def field_table(fn, e, field, depth=0):
             upd = dict(ve[2])
             if selfref and (base == e0 or (base[0] == 'var' and e0[0] == 'var' and base[1] == e0[1])):
                 if field in upd:
-                    rows.append((conds, upd[field]))
+                    rows.append((conds, upd[field], 'over'))
                 continue
             if field in upd:
-                rows.append((conds, upd[field]))
+                rows.append((conds, upd[field], 'base'))
                 continue
             if depth < 3:
-                sub = field_table(fn, base, field, depth + 1)
+                sub = field_table(fn, base, field, depth + 1, kinds=True)
                 if sub is None:
                     return None
-                rows += [(conds + c2, v2) for c2, v2 in sub]
+                rows += [(conds + c2, v2, k2) for c2, v2, k2 in sub]
                 continue
             return None
         if selfref:
             return None
         if ve[0] == 'agg' and field in dict(ve[2]):
-            rows.append((conds, dict(ve[2])[field]))
+            rows.append((conds, dict(ve[2])[field], 'base'))
             continue
         return None
-    return rows
+    return rows if kinds else [(c_, v_) for c_, v_, _k in rows]
+
+
+def rewrapped_option(rows):
+    """[(conds, value)] that spell `match x { Some(v) => Some(v), None => None }` (clone / to_string in between allowed): x"""
+    if len(rows) != 2:
+        return None
+    some = [(cs, strip(v)) for cs, v in rows if strip(v)[0] == 'agg' and strip(v)[1].endswith('Option::Some') and strip(v)[2]]
+    none = [(cs, strip(v)) for cs, v in rows if strip(v)[0] == 'agg' and strip(v)[1].endswith('Option::None')]
+    if len(some) != 1 or len(none) != 1:
+        return None
+    (cs1, v1), (cs0, v0) = some[0], none[0]
+    pl = strip(v1[2][0][1])
+    if not (pl[0] == 'payload' and pl[2] == 'Some'):
+        return None
+    x = strip(pl[1])
+    t1 = [(c, l) for c, l in cs1 if c[0] == 'discr' and strip(c[1]) == x]
+    t0 = [(c, l) for c, l in cs0 if c[0] == 'discr' and strip(c[1]) == x]
+    if len(cs1) == 1 and len(cs0) == 1 and t1 and t0 and t1[0][1] == 'Some' and t0[0][1] == 'None':
+        return x
+    return None
+
+
+def struct_result_tables(fn, fields):
+    """per-field decision tables of the struct a function returns (built by literals, constructors, builders, possibly in several
+    arms): {field: [(conds, value)]} or None"""
+    out = {k: [] for k in fields}
+    exits = [x for x in fn.exits() if x['kind'] not in ('err_own', 'err_prop', 'none_prop', 'diverge')]
+    per = [(x, _edge_conds(fn, x['block'])) for x in exits]
+    common = None
+    for x, cs in per:
+        ks = {(b, repr(c), lab) for b, c, lab in cs}
+        common = ks if common is None else (common & ks)
+    for x, cs in per:
+        own = [(c, lab) for b, c, lab in cs if (b, repr(c), lab) not in common]
+        for k in fields:
+            ft = field_table(fn, x['expr'], k)
+            if ft is None:
+                return None
+            out[k] += [(own + [(expand(fn, c), l) for c, l in c2], v) for c2, v in ft]
+    # rows that agree on the value are one row
+    for k in fields:
+        vals = {repr(strip(v)) for cs, v in out[k]}
+        if len(vals) == 1 and out[k]:
+            out[k] = [([], out[k][0][1])]
+    return out
 
 
 def unmodified_clone(fn, e, type_frag):
